@@ -84,9 +84,14 @@ func pctDecode(s string) (string, error) {
 }
 
 func genRelay(t *rapid.T) string {
-	switch rapid.IntRange(0, 5).Draw(t, "relayKind") {
+	switch rapid.IntRange(0, 6).Draw(t, "relayKind") {
 	case 0:
 		return ""
+	case 6:
+		if d := h.CodeLiterals(); len(d) > 0 {
+			return d[rapid.IntRange(0, len(d)-1).Draw(t, "relayLiteral")]
+		}
+		return "x"
 	case 1:
 		return rapid.SampledFrom([]string{" ", "a b", "a+b", "a&b=c", "100%", "%41", "#frag", "?q", "é", "日本", "a\nb", "=", "&SigAlg=x", "RelayState=1&SAMLRequest=2"}).Draw(t, "relayConst")
 	case 2:
